@@ -48,7 +48,7 @@ idx_st = st.one_of(
     st.fixed_dictionaries({"t": st.just("slice"), "a": st.one_of(st.none(), st.integers(-12, 12)),
                            "b": st.one_of(st.none(), st.integers(-12, 12)),
                            "s": st.sampled_from([None, 1, 2, 3, -1, -2])}),
-    st.fixed_dictionaries({"t": st.sampled_from(["mask_nd", "mask_arr", "mask_list"]),
+    st.fixed_dictionaries({"t": st.sampled_from(["mask_nd", "mask_arr", "mask_list", "mask_list"]),
                            "bits": st.lists(st.booleans(), min_size=40, max_size=40)}),
     st.fixed_dictionaries({"t": st.sampled_from(["ints_nd", "ints_arr", "ints_list", "ints_arr32"]),
                            "ii": st.lists(st.integers(-40, 40), min_size=0, max_size=12),
